@@ -287,6 +287,12 @@ func (c *Client) validateVirtualChannelFundingProposal(
 		return err
 	}
 
+	// An update that is accepted without asking the user must not close the
+	// channel.
+	if prop.State.IsFinal {
+		return errors.New("funding update must not be final")
+	}
+
 	// Assert not contained before
 	_, containedBefore := ch.state().SubAlloc(prop.Initial.Params.ID())
 	if containedBefore {
